@@ -323,3 +323,58 @@ Proof.
 Qed.
 
 End UstarOk.
+
+Section UstarOkDev.
+Variable e : entry.
+Variable tt : Z.
+Hypothesis Hok : fst (ustar_header e tt true) = 0%Z.
+Hypothesis Hdev : is_dev e = true.
+
+Let facts : ustar_ok_facts e tt := ustar_ok e tt Hok.
+
+Theorem ustar_ok_rdevmajor :
+  tar_atol (slice R_tar_rdevmajor_offset R_tar_rdevmajor_size (snd (ustar_header e tt true))) = dev_major (e_rdev e).
+Proof.
+  eapply (ustar_num6 e tt USTAR_rdevmajor_offset) with
+    (ws1 := snd (ustar_name_writes (ob (e_path e)))
+       ++ wr_if (0 <? length (linkname_of e)) USTAR_linkname_offset (firstn USTAR_linkname_size (linkname_of e))
+       ++ wr_if (0 <? length (ob (e_uname e))) USTAR_uname_offset (firstn USTAR_uname_size (ob (e_uname e)))
+       ++ wr_if (0 <? length (ob (e_gname e))) USTAR_gname_offset (firstn USTAR_gname_size (ob (e_gname e)))
+       ++ [(USTAR_mode_offset, snd (ustar_format_number (Z.land (e_mode e) 4095) USTAR_mode_size USTAR_mode_max_size true));
+           (USTAR_uid_offset, snd (ustar_format_number (e_uid e) USTAR_uid_size USTAR_uid_max_size true));
+           (USTAR_gid_offset, snd (ustar_format_number (e_gid e) USTAR_gid_size USTAR_gid_max_size true));
+           (USTAR_size_offset, snd (ustar_format_number (size_of e) USTAR_size_size USTAR_size_max_size true));
+           (USTAR_mtime_offset, snd (ustar_format_number (e_mtime e) USTAR_mtime_size USTAR_mtime_max_size true))]).
+  - unfold ustar_fields; cbv zeta; cbn [snd]. rewrite Hdev. cbn [wr_if].
+    repeat rewrite <- app_assoc. cbn [app]. reflexivity.
+  - away_all.
+  - unfold ustar_fields; cbv zeta; cbn [snd]; away_all.
+  - leaf.
+  - reflexivity.
+  - apply (uf_maj _ _ facts Hdev).
+Qed.
+
+Theorem ustar_ok_rdevminor :
+  tar_atol (slice R_tar_rdevminor_offset R_tar_rdevminor_size (snd (ustar_header e tt true))) = dev_minor (e_rdev e).
+Proof.
+  eapply (ustar_num6 e tt USTAR_rdevminor_offset) with
+    (ws1 := snd (ustar_name_writes (ob (e_path e)))
+       ++ wr_if (0 <? length (linkname_of e)) USTAR_linkname_offset (firstn USTAR_linkname_size (linkname_of e))
+       ++ wr_if (0 <? length (ob (e_uname e))) USTAR_uname_offset (firstn USTAR_uname_size (ob (e_uname e)))
+       ++ wr_if (0 <? length (ob (e_gname e))) USTAR_gname_offset (firstn USTAR_gname_size (ob (e_gname e)))
+       ++ [(USTAR_mode_offset, snd (ustar_format_number (Z.land (e_mode e) 4095) USTAR_mode_size USTAR_mode_max_size true));
+           (USTAR_uid_offset, snd (ustar_format_number (e_uid e) USTAR_uid_size USTAR_uid_max_size true));
+           (USTAR_gid_offset, snd (ustar_format_number (e_gid e) USTAR_gid_size USTAR_gid_max_size true));
+           (USTAR_size_offset, snd (ustar_format_number (size_of e) USTAR_size_size USTAR_size_max_size true));
+           (USTAR_mtime_offset, snd (ustar_format_number (e_mtime e) USTAR_mtime_size USTAR_mtime_max_size true));
+           (USTAR_rdevmajor_offset, snd (ustar_format_number (dev_major (e_rdev e)) USTAR_rdevmajor_size USTAR_rdevmajor_max_size true))]).
+  - unfold ustar_fields; cbv zeta; cbn [snd]. rewrite Hdev. cbn [wr_if].
+    repeat rewrite <- app_assoc. cbn [app]. reflexivity.
+  - away_all.
+  - unfold ustar_fields; cbv zeta; cbn [snd]; away_all.
+  - leaf.
+  - reflexivity.
+  - apply (uf_min _ _ facts Hdev).
+Qed.
+
+End UstarOkDev.
